@@ -29,4 +29,13 @@ def run(tier):
         cr.bounded_check(run_template_scope, f"template-lemmas-{'opt' if optimize else 'noopt'}", "history", progs,
                          f"{len(progs)} programs: cover + base + step lemmas (history) / round-trip lemma (iteration) by SMT over the S2 tick function; optimize={optimize}",
                          cr.known, optimize=optimize)
+    from contracts import cparse as _cparse
+    from bounded.contract_enum import run_contract_enum as _rce_parse
+    from bounded import pipeline as _pl_parse
+    _pl_parse.ensure_repo()
+    _sargs = _cparse.statement_arg_sets()
+    cr.bounded_check(_rce_parse, "statement-forms-box", _cparse.statement_c, _sargs,
+                     f"{len(_sargs)} statement texts (loop headers with negative / named bounds and steps, value lists, declarations, memory writes with when / set / reset in both "
+                     "orders, place arguments and property dictionaries, function parameters, bundle forms): the real parser's tree carries exactly what the text says — S3 takes its trees "
+                     "from that parser (contract evaluated on the real DSLParser.parse)")
     return cr.finish()
